@@ -4,8 +4,10 @@ import (
 	"encoding/json"
 	"fmt"
 	"strings"
+	"sync"
 
 	"berty.tech/go-ipfs-log/entry"
+	"berty.tech/go-orbit-db/stores"
 	"berty.tech/go-orbit-db/stores/operation"
 	"berty.tech/go-orbit-db/stores/replicator"
 	cid "github.com/ipfs/go-cid"
@@ -73,6 +75,34 @@ type C10World struct {
 	valid     []*entry.Entry // valid heads
 	mustHave  []*entry.Entry // closure of the valid heads
 	forbidden []*entry.Entry
+	mu        sync.Mutex
+	pending   []explore.Violation
+}
+
+// MonitorEvents makes the world check, inside every replicated-event emission of the victim, that the
+// announced entries are already in its log and view (C16 over batches that contain rejected entries).
+func (w *C10World) MonitorEvents() {
+	w.V.Bus.Monitor(func(evt interface{}) {
+		e, ok := evt.(stores.EventReplicated)
+		if !ok {
+			return
+		}
+		view := "," + w.VictimView() + ","
+		for _, en := range e.Entries {
+			name := w.Name(en.GetHash())
+			if !w.VictimHas(en.GetHash()) {
+				w.mu.Lock()
+				w.pending = append(w.pending, explore.Violation{Signature: "replicated-event-announces-entry-not-in-log",
+					Detail: fmt.Sprintf("EventReplicated carries %s, which is not in the store's log %v", name, w.VictimSet())})
+				w.mu.Unlock()
+			} else if !strings.Contains(view, ","+name+",") {
+				w.mu.Lock()
+				w.pending = append(w.pending, explore.Violation{Signature: "replicated-event-ahead-of-view",
+					Detail: fmt.Sprintf("EventReplicated carries %s, which is not listed yet (%s)", name, view)})
+				w.mu.Unlock()
+			}
+		}
+	})
 }
 
 type C10Arg struct {
@@ -192,7 +222,13 @@ func (w *C10World) Do(a string) error {
 }
 
 func (w *C10World) Key() string                            { return "" }
-func (w *C10World) Check(hist []string) []explore.Violation { return nil }
+func (w *C10World) Check(hist []string) []explore.Violation {
+	w.mu.Lock()
+	defer w.mu.Unlock()
+	out := w.pending
+	w.pending = nil
+	return out
+}
 
 func (w *C10World) Final() []explore.Violation {
 	if !w.reDone {
